@@ -249,10 +249,7 @@ fn run_inner(rep: &mut Rep) {
                 Ok(Err(e)) => viol(rep, "witness_json:err", json!({"case": lab, "err": e.to_string()})),
                 Err(p) => viol(rep, "witness_json:panic", json!({"case": lab, "panic": p.msg})),
             }
-            // bigint JSON: compare with independently built expected value
-            if w.bits.len() != w.path.len() {
-                continue;
-            }
+            // bigint JSON: compare with independently built expected value (also for vectors of different length)
             rep.ev();
             let want = crate::noderef::rln_inputs_json(&w);
             match catch(|| rln_witness_to_bigint_json(&zw)) {
